@@ -15,6 +15,12 @@ pub struct Violation {
     pub facets: Vec<String>,
     pub diff: Vec<DiffLine>,
     pub detail: String,
+    /// positions of all differing cells (`<sheet>!R<r>C<c>`), not truncated
+    #[serde(default)]
+    pub cells: Vec<String>,
+    /// classification tags computed by the runner (see `tags.rs`)
+    #[serde(default)]
+    pub tags: Vec<String>,
 }
 
 impl Violation {
@@ -24,8 +30,25 @@ impl Violation {
     pub fn from_diff(oracle: &str, at: usize, culprit_event: usize, culprit_kind: &str, d: Vec<DiffLine>, detail: String) -> Violation {
         let mut d = d;
         let f = facets(&d);
+        // cells whose only difference is that a (transient) spill cell is there or not
+        // are listed with a "~" prefix
+        let spillish: std::collections::HashSet<String> = d
+            .iter()
+            .filter(|l| l.facet == "cell.kind" && (l.expected.starts_with("spill of") || l.actual.starts_with("spill of")))
+            .map(|l| l.at.clone())
+            .collect();
+        let mut cells: Vec<String> = d
+            .iter()
+            .filter(|l| l.facet.starts_with("cell."))
+            .map(|l| if spillish.contains(&l.at) { format!("~{}", l.at) } else { l.at.clone() })
+            .collect();
+        cells.sort();
+        cells.dedup();
+        cells.truncate(400);
         d.truncate(12);
         Violation {
+            cells,
+            tags: vec![],
             oracle: oracle.to_string(),
             at_event: at,
             culprit_event,
@@ -44,6 +67,8 @@ impl Violation {
             facets: vec![facet.to_string()],
             diff: vec![],
             detail,
+            cells: vec![],
+            tags: vec![],
         }
     }
 }
@@ -188,6 +213,9 @@ impl Oracle for History {
                     self.cur = new;
                     return Verdict::Ok;
                 }
+                if res.result.is_err() && self.mode != HistMode::Undo {
+                    return Verdict::Abandon(Abandon(format!("undo returned {:?} (C01's business)", res.result)));
+                }
                 if res.result.is_err() {
                     return Verdict::Violation(Violation::simple(
                         "undo-error",
@@ -215,9 +243,12 @@ impl Oracle for History {
                     self.probe_walk_to_start += 1;
                 }
                 self.cursor_checks += 1;
-                if self.mode != HistMode::Redo || true {
+                {
                     self.undo_checks += 1;
                     let d = diff(&self.snaps[self.cursor], &new);
+                    if !d.is_empty() && self.mode != HistMode::Undo {
+                        return Verdict::Abandon(Abandon(format!("undo of {ck} did not restore the state (C01's business)")));
+                    }
                     if !d.is_empty() {
                         let oracle = "undo-restores";
                         return Verdict::Violation(Violation::from_diff(
@@ -257,6 +288,9 @@ impl Oracle for History {
                     }
                     self.cur = new;
                     return Verdict::Ok;
+                }
+                if self.mode != HistMode::Redo && res.result.is_err() {
+                    return Verdict::Abandon(Abandon(format!("redo returned {:?} (C02's business)", res.result)));
                 }
                 if self.cursor + 1 >= self.snaps.len() || (u1, r1) != (u0 + 1, r0 - 1) || res.result.is_err() {
                     return Verdict::Violation(Violation::simple(
